@@ -5,5 +5,6 @@ NEXT Next
 INVARIANT TableOk
 INVARIANT OperandInv
 INVARIANT AliasInv
+INVARIANT SharedInv
 INVARIANT FieldInv
 CHECK_DEADLOCK FALSE
